@@ -648,9 +648,13 @@ def check_crash(res: Result, cfg, label: str, rp: dict, ref: dict, k: int, d: di
     best = feasible_best(backup, sc)
     result = R["out"]["result"]
     if best is not None:
-        sign = -1 if sc.get("maximize") else 1
-        good = (result is not None and result["is_feasible"] is True and result["f_opt"] is not None
-                and sign * F(result["f_opt"]) <= best)
+        # compared on the recorded (minimised) objective at the reported point: independent of the
+        # sign convention of f_opt for maximised objectives
+        good = False
+        if result is not None and result["is_feasible"] is True and result["x_opt"] is not None:
+            xo = tuple(F(t) for t in result["x_opt"])
+            obj = sc.get("db_objective", sc["objective"])
+            good = xo in r_final and obj in r_final[xo] and r_final[xo][obj][0] <= best
         if not good:
             res.violate("oracle", "optimum-worse",
                         f"{label}: best loaded feasible objective {float(best)}, restarted run reports {result}", rp)
